@@ -702,7 +702,7 @@ func (w *world) onStep(s *simrt.Sim, released *simrt.Task) {
 	// multiset of (class, gate kind, site) — order independent sum
 	var sum uint64
 	parsersOnInbound := 0
-	for _, t := range s.Tasks {
+	for _, t := range s.Live() {
 		k := t.PendKind()
 		sum += simrt.Mix(simrt.HashString(t.Class), simrt.HashString(k), uint64(uint32(t.PendSite())))
 		if t.Class == "parser" && k == "send" {
